@@ -37,6 +37,12 @@ M = {
  "c09-wake-before-commit": ("actions/notify.go", "\t\t\terr := c.Commit(ctx, tx)\n\t\t\tif err == nil {\n\t\t\t\tWakePublishListeners(false, subIDs...)\n\t\t\t}\n\t\t\treturn err", "\t\t\tWakePublishListeners(false, subIDs...)\n\t\t\treturn c.Commit(ctx, tx)"),
  "c09-seek-swallow": ("actions/seek-subscription-to-time.go", "\t\tSetAttemptAt(now).\n\t\tSave(ctx)\n\tif err != nil {\n\t\treturn err\n\t}", "\t\tSetAttemptAt(now).\n\t\tSave(ctx)\n\tif err != nil {\n\t\terr = nil\n\t}"),
  "c09-dl-complete-first": ("actions/ack-deliveries.go", "\tif err != nil {\n\t\treturn err\n\t}\n\n\ttx.OnCommit(", "\tif err != nil {\n\t\treturn err\n\t}\n\tfor _, s := range subIDs {\n\t\tWakePublishListeners(false, s)\n\t}\n\n\ttx.OnCommit("),
+ "c12-snap-prefix": ("services/grpc.go", 'return project + "/snapshots/"', 'return project + "/subscriptions/"'),
+ "c12-list-deleted": ("services/grpc-publisher.go", "\t\t\tnameHasExactPrefix(topic.FieldName, projectTopicPrefix(req.Project)),\n\t\t\ttopic.DeletedAtIsNil(),\n", "\t\t\tnameHasExactPrefix(topic.FieldName, projectTopicPrefix(req.Project)),\n"),
+ "c12-token-gte": ("services/grpc-subscriber.go", "predicates = append(predicates, subscription.IDGT(pageID))", "predicates = append(predicates, subscription.IDGTE(pageID))"),
+ "c12-prefix-noslash": ("services/grpc.go", 'return project + "/topics/"', 'return project + "/topics"'),
+ "c12-create-nolivecheck": ("actions/create-subscription.go", "\t} else if exists {\n\t\treturn ErrExists\n\t}\n\n\ttopic, err := findTopic", "\t} else if exists && false {\n\t\treturn ErrExists\n\t}\n\n\ttopic, err := findTopic"),
+ "c12-case-insensitive": ("services/grpc-subscriber.go", "\t\t\tnameHasExactPrefix(subscription.FieldName, projectSubscriptionPrefix(req.Project)),\n", ""),
 }
 def main():
     name, checks = sys.argv[1], sys.argv[2].split(",")
